@@ -153,7 +153,47 @@ func c15Worlds() []c15World {
 	r8 := mk("rest-bad-var", wire.GRPCWeb, "Scalar", "json", "", restEcho, nil, MkMsg(`{"child":{"child":{"name":"not-matching"}},"num":4}`))
 	w2.history = []c15Req{r1, r2, r3, r4, r5, r6, r7, r8}
 	w2.probes = []c15Req{r1, r2, r3, r5, r7}
-	return []c15World{w1, w2}
+	// world 3: gRPC-Web target reached by re-framing only (same codec): the end of the
+	// response is a frame in the body that the transcoder has to buffer and decode
+	w3 := c15World{name: "target=gRPC-Web/proto/gzip (re-framing)", cfg: world.Config{Protocols: []vanguard.Protocol{vanguard.ProtocolGRPCWeb}, Codecs: []string{"proto"}, Compression: []string{"gzip"}, MaxMsg: 8000}}
+	webOK := echo(`{"name":"web-ok","extraText":"` + strings.Repeat("w", 100) + `"}`)
+	badTrailer := func(name string, mut func(out *wire.ServerOut)) c15Req {
+		return mk(name, wire.GRPC, "Unary", "proto", "gzip", func(b *world.Backend, r *http.Request) *world.Reply {
+			rep := webOK(b, r)
+			out := *rep.Out
+			out.Body = append([]byte(nil), out.Body...)
+			mut(&out)
+			rep.Out = &out
+			return rep
+		}, nil, big)
+	}
+	lastFrame := func(body []byte) int {
+		offs := frameOffsets(body)
+		return offs[len(offs)-1]
+	}
+	g1 := mk("grpc-proto-gzip", wire.GRPC, "Unary", "proto", "gzip", webOK, nil, big)
+	g2 := mk("connect-stream-proto", wire.ConnectStream, "Bidi", "proto", "", echo(`{"name":"c1"}`, `{"name":"c2"}`), nil, small, other)
+	g3 := mk("grpc-proto-sstream", wire.GRPC, "SStream", "proto", "", echo(`{"name":"s1"}`, `{}`), nil, other)
+	w3.history = []c15Req{g1, g2, g3,
+		badTrailer("trailer-frame-without-colon", func(out *wire.ServerOut) {
+			o := lastFrame(out.Body)
+			out.Body = wire.AppendFrame(out.Body[:o], 0x80, []byte("grpc-status 0\r\n"))
+		}),
+		badTrailer("trailer-frame-flagged-compressed-not-gzip", func(out *wire.ServerOut) {
+			o := lastFrame(out.Body)
+			out.Body = wire.AppendFrame(out.Body[:o], 0x81, []byte("grpc-status: 0\r\n"))
+		}),
+		badTrailer("trailer-frame-truncated", func(out *wire.ServerOut) { out.Body = out.Body[:len(out.Body)-3] }),
+		badTrailer("trailer-frame-oversized", func(out *wire.ServerOut) {
+			o := lastFrame(out.Body)
+			out.Body = wire.AppendFrame(out.Body[:o], 0x80, []byte("grpc-status: 0\r\nx-pad: "+strings.Repeat("p", 9000)+"\r\n"))
+		}),
+		badTrailer("message-frame-flagged-compressed-not-gzip", func(out *wire.ServerOut) { out.Body[0] = 1; out.Body[7] ^= 0x55 }),
+		mk("cut-mid-envelope", wire.GRPC, "Unary", "proto", "gzip", webOK, cut(3), big),
+		mk("over-limit", wire.GRPC, "Unary", "proto", "", webOK, nil, MkMsg(`{"extraText":"`+strings.Repeat("L", 9000)+`"}`)),
+	}
+	w3.probes = []c15Req{g1, g2, g3, mk("web-json-gzip", wire.GRPCWeb, "Unary", "json", "gzip", webOK, nil, big)}
+	return []c15World{w1, w2, w3}
 }
 
 type protoMessage = proto.Message
@@ -236,7 +276,7 @@ func init() {
 		ID:    "C15",
 		Level: "model_checking",
 		Rule: "Explicit-state search over request histories on one Transcoder (deterministic maximal-reuse pool through the verifsync shim): world 1 (gRPC/proto/gzip target): alphabet of 21 requests (6 clean RPCs covering re-framing, re-encoding and compression on both legs incl. a 5 kB message that grows pooled buffers; validation failures, cuts inside envelope / payload / flat body, over-limit, four kinds of corrupt gzip, undecodable message, corrupt gzip response, early return, backend panic before/after its first write) and 6 probes; " +
-			"world 2 (REST target): 8 requests over shared route targets and 5 probes. Every history of depth <= 3 (quick) / <= 4 (thorough) is replayed on a fresh Transcoder followed by each probe; the probe's semantic outcome (client and backend side) must equal its outcome on a fresh Transcoder; no pool element may be Put twice; poison must not reach outputs. " +
+			"world 2 (REST target): 8 requests over shared route targets and 5 probes; world 3 (gRPC-Web target reached by re-framing): 10 requests incl. five malformed trailer / message frames from the backend, 4 probes. Every history of depth <= 3 (quick) / <= 4 (thorough) is replayed on a fresh Transcoder followed by each probe; the probe's semantic outcome (client and backend side) must equal its outcome on a fresh Transcoder; no pool element may be Put twice; poison must not reach outputs. " +
 			"A state is a history (no merging); a transition is one replayed request. Non-trivial = distinct pool-state key (multiset of pooled buffer capacities and pooled codec objects) reached before a probe.",
 		Assume:  []string{"the deterministic LIFO pool of the shim is the maximal-reuse behaviour the real sync.Pool may exhibit", "every explored trace is an execution of the implementation itself (no separate model)"},
 		Custom:  c15Custom,
